@@ -13,6 +13,7 @@ import (
 	"path"
 	"path/filepath"
 	"strings"
+	"sync"
 	"time"
 
 	"github.com/davecgh/go-spew/spew"
@@ -32,6 +33,7 @@ type SourceControl struct {
 	erroring       *ErroringSource
 	ActiveSource   DataSource
 	isSourceActive bool
+	startStopLock  sync.Mutex // serialises the Start and Stop requests of concurrent clients
 	mapServer      *MapServer
 
 	status        ServerStatus
@@ -353,6 +355,11 @@ func (s *SourceControl) ConfigurePulseLengths(sizes SizeObject, reply *bool) err
 // Start will identify the source given by sourceName and Sample then Start it.
 func (s *SourceControl) Start(sourceName *string, reply *bool) error {
 	*reply = false
+	// One Start or Stop at a time: each RPC request runs on its own goroutine, and a Start slipping
+	// in while another client's Stop is still waiting for the run to end would reuse the source's
+	// wait group under that waiter (or meet a second Stop while the source is still Starting).
+	s.startStopLock.Lock()
+	defer s.startStopLock.Unlock()
 	if s.isSourceActive {
 		return fmt.Errorf("already have active source, do not start")
 	}
@@ -408,6 +415,8 @@ func (s *SourceControl) Start(sourceName *string, reply *bool) error {
 
 // Stop stops the running data source, if any
 func (s *SourceControl) Stop(dummy *string, reply *bool) error {
+	s.startStopLock.Lock()
+	defer s.startStopLock.Unlock()
 	if !s.isSourceActive {
 		return fmt.Errorf("no source is active")
 	}
